@@ -79,17 +79,23 @@ Proof.
     + inversion H; subst. exact E.
 Qed.
 
+Lemma shed_after_ext t x : ext (wout x) (wout (shed_after t x)).
+Proof.
+  destruct x as [[p acts] out]. unfold shed_after.
+  destruct (w_dset p) as [[limit [|]]|]; try apply ext_refl.
+  destruct (shed_oldest _ t limit (w_queue p) out) as [q' out'] eqn:E. apply shed_oldest_ext in E. exact E.
+Qed.
+
 Lemma enqueue_job_ext t x j : ext (wout x) (wout (enqueue_job t x j)).
 Proof.
   destruct x as [[p acts] out]. unfold enqueue_job.
   match goal with |- context [if ?b then _ else _] => destruct b end; [apply ext_reject_disc|].
+  eapply ext_trans; [|apply shed_after_ext].
   destruct (w_curr p).
   - destruct (next_non_expired t (w_queue p) (accept_ev j out)) as [[[o|] q'] out'] eqn:E;
       apply next_non_expired_ext in E; rewrite dispatch_job_ext;
       (eapply ext_trans; [apply ext_accept|exact E]).
-  - destruct (w_dset p) as [[limit [|]]|]; try apply ext_accept.
-    destruct (shed_oldest _ t limit (w_queue p ++ [clear_port j]) (accept_ev j out)) as [q' out'] eqn:E.
-    apply shed_oldest_ext in E. eapply ext_trans; [apply ext_accept|exact E].
+  - apply ext_accept.
 Qed.
 
 Lemma worker_complete_ext t x k : ext (wout x) (wout (worker_complete t x k)).
@@ -398,6 +404,11 @@ Proof.
     destruct (a_alive x); [apply actor_exit_EX|exr].
   - unfold w_exit. destruct (lookup a (actors w)) as [x|]; [|exr].
     destruct (a_alive x), (a_stop x), (a_run x); try exr. apply actor_exit_EX.
+  - apply (stop_actor_EX a w).
+  - unfold w_close. destruct (lookup a (actors w)) as [x|]; [|exr].
+    destruct (a_alive x), (a_stop x), (a_run x); try exr. apply (actor_exit_EX a (CStopExit a) w).
+  - unfold w_closed. destruct (lookup a (actors w)) as [x|]; [|exr].
+    destruct (memN a (closing w) && negb (a_alive x)); exr.
   - apply finalize_EX.
 Qed.
 
